@@ -7,6 +7,7 @@ import (
 	"regexp"
 	"strconv"
 	"strings"
+	"time"
 
 	"evylang.dev/evy/pkg/evaluator"
 	"evylang.dev/evy/pkg/parser"
@@ -249,9 +250,18 @@ func SemCompare(model *Model, src string, o SemOpts, compareYields bool) SemDiff
 		d.Skipped = "export:" + err.Error()
 		return d
 	}
-	ans, err := model.Ask(c.String())
+	ans, err := model.AskT(c.String(), 40*time.Second)
+	if err == ErrModelTimeout {
+		d.Skipped = "model-resource:timeout"
+		return d
+	}
 	if err != nil {
 		d.Diff = "model process failed: " + err.Error()
+		return d
+	}
+	if ans == "model-stack-overflow" || ans == "model-out-of-memory" {
+		// the extracted OCaml code ran out of stack / memory on this input: nothing was compared (counted, not a difference)
+		d.Skipped = "model-resource:" + strings.TrimPrefix(ans, "model-")
 		return d
 	}
 	mx, err := ParseSX(ans)
